@@ -80,7 +80,15 @@ func readDeb(path string, data []byte) (*Payload, error) {
 			if err != nil {
 				return nil, fmt.Errorf("dpkg-deb %s: %v: %s", flag, err, clip(string(out)))
 			}
-			p.add("dpkg-deb "+flag, "", out)
+			// "dpkg-deb -I" starts with the total file size: not payload
+			var keep [][]byte
+			for _, l := range bytes.SplitAfter(out, []byte("\n")) {
+				if flag == "-I" && bytes.HasPrefix(l, []byte(" size ")) {
+					continue
+				}
+				keep = append(keep, l)
+			}
+			p.add("dpkg-deb "+flag, "", bytes.Join(keep, nil))
 		}
 	}
 	return p, nil
